@@ -60,12 +60,15 @@ class Inside(Family):
 
     def instances(self, tier):
         out = split_paths(dict(n=3), 3, 4)
+        # a self-overlapping polygon (pentagram, vertices pinned, the point symbolic): its centre has winding number 2 and is OUTSIDE under the
+        # even-odd rule the property states
+        out.append(dict(n=5, pin=[[0, 8], [5, -7], [-8, 2], [8, 2], [-5, -7]]))
         if tier == 'thorough':
             out += split_paths(dict(n=4), 6, 4)
         return out
 
     def cost(self, inst):
-        return 6 ** inst['n'] / (1 << inst.get('_split', [0, 0])[1])
+        return (6 ** inst['n'] / (1 << inst.get('_split', [0, 0])[1])) if not inst.get('pin') else 200
 
     def inputs(self, inst, S):
         n = inst['n']
@@ -73,6 +76,9 @@ class Inside(Family):
         py = [S.real('py%d' % i, -100, 100) for i in range(n)]
         x, y = S.real('x', -200, 200), S.real('y', -200, 200)
         X, Y = [v.num for v in px], [v.num for v in py]
+        for i, (a, b) in enumerate(inst.get('pin') or []):
+            S.assume(X[i] == a)
+            S.assume(Y[i] == b)
         # vertex coordinates pairwise equal or much further apart than the absolute tolerance 1e-8
         for i in range(n):
             for j in range(i + 1, n):
